@@ -4,6 +4,7 @@ import asyncio
 import signal
 import sys
 import threading
+import time
 from concurrent.futures import ThreadPoolExecutor, wait
 from functools import partial, update_wrapper
 from logging import Logger, LoggerAdapter
@@ -238,13 +239,23 @@ def timeout_wrapper(wrapped_func: Callable[..., Any]) -> Callable[..., Any]:
             )
 
             old = signal.signal(signal.SIGALRM, callback)
-            signal.setitimer(signal.ITIMER_REAL, timeout)
+            # there is only one ITIMER_REAL per process; remember whatever was armed before us (the
+            # user's own alarm, or an enclosing timeout) so it can be put back afterwards
+            previous_delay, previous_interval = signal.setitimer(signal.ITIMER_REAL, timeout)
+            started = time.monotonic()
             try:
                 return wrapped_func(*args, **kwargs)
             finally:
                 if timeout:
                     signal.setitimer(signal.ITIMER_REAL, 0)
                     signal.signal(signal.SIGALRM, old)
+                    if previous_delay > 0:
+                        # re-arm the previous timer with the time it has left; if it would have
+                        # expired while we were running it fires (with its own handler) right away
+                        remaining = previous_delay - (time.monotonic() - started)
+                        signal.setitimer(
+                            signal.ITIMER_REAL, max(remaining, 0.000001), previous_interval
+                        )
 
     # ensures that the wrapped function is updated w/ the original functions docs/etc. --
     # necessary for introspection for the auto gen docs to work!
